@@ -4,6 +4,7 @@ CONSTANTS
   Vectors <- V3
   MaxOps = 3
   BranchInputsMayBeLazy = FALSE
+  KeyOnContentOnly = FALSE
 INVARIANT Transparent
 INVARIANT NoLeak
 
